@@ -288,8 +288,10 @@ impl<const C: usize> Machine for RibM<C> {
         h.word(s.num_samples_received as u64);
         h.word(s.num_samples_written as u64);
         h.word(s.buff_len as u64);
+        // the buffer enters the key in oldest-first order only: the controller touches it solely through write(),
+        // capacity() and oldest_ordered(), all invariant under rotation of the storage, and the storage position of
+        // the next write is not observable (with raw order in the key, equal keys had different successors)
         for i in 0..s.buff_len.min(C) {
-            h.word(s.buff_raw[i].to_bits() as u64);
             h.word(s.buff_oldest_first[i].to_bits() as u64);
         }
         // model
@@ -413,11 +415,21 @@ pub fn c15(ctx: &Ctx) -> Report {
             with_capacity!(fs, explore_c, ctx, &mut rep, cfg, levels, false, false, mp, None, p, &format!("press detection at {} Hz, resistors {:?}", fs, t));
         }
     }
+    // complement without state matching at the two smallest capacities
+    {
+        let cfg = RibCfg { fs: 100, softpot: 20e3, dropper: 820.0, pullup: 1e6 };
+        let m = RibM::<{ sample_rate_to_capacity(100) }>::new(cfg, vec![0.4 * cfg.boundary(), 1.0], false, false, u32::MAX).expect("calibration");
+        enumerate_sequences(&m, if thorough { 12 } else { 10 }, ctx, &mut rep, p, "all sample / poll sequences at capacity 2, no state matching");
+        let cfg = RibCfg { fs: 334, softpot: 20e3, dropper: 820.0, pullup: 1e6 };
+        let m = RibM::<{ sample_rate_to_capacity(334) }>::new(cfg, vec![0.4 * cfg.boundary(), 1.0], false, false, u32::MAX).expect("calibration");
+        enumerate_sequences(&m, if thorough { 14 } else { 11 }, ctx, &mut rep, p, "all sample / poll sequences at capacity 6, no state matching");
+    }
     if thorough {
         let cfg = RibCfg { fs: 1000, softpot: 20e3, dropper: 820.0, pullup: 1e6 };
         sr_cross::<{ sample_rate_to_capacity(1000) }>(ctx, &mut rep, cfg, vec![0.4, 1.0], p);
         let cfg = RibCfg { fs: 334, softpot: 20e3, dropper: 820.0, pullup: 1e6 };
         sr_cross::<{ sample_rate_to_capacity(334) }>(ctx, &mut rep, cfg, vec![0.4, 1.0, 0.0], p);
+        key_selfcheck(RibM::<{ sample_rate_to_capacity(334) }>::new(cfg, vec![0.4, 1.0, 0.0], false, false, 2).expect("calibration"), 300_000, &mut rep, "ribbon press machine at 334 Hz");
     }
     rep.nontrivial = rep.counters.get("presses_following_a_tap_shorter_than_the_capture_time").copied().unwrap_or(0) + rep.counters.get("edge_polls_expected_true").copied().unwrap_or(0);
     rep.require_nonzero("presses_following_a_tap_shorter_than_the_capture_time");
@@ -450,6 +462,11 @@ pub fn c16(ctx: &Ctx) -> Report {
             levels.push(1.0);
             with_capacity!(fs, explore_c, ctx, &mut rep, cfg, levels, true, fs <= 500, mp, depth, p, &format!("position value at {} Hz, resistors {:?}", fs, t));
         }
+    }
+    if thorough {
+        let cfg = RibCfg { fs: 334, softpot: 20e3, dropper: 820.0, pullup: 1e6 };
+        let b = cfg.boundary();
+        key_selfcheck(RibM::<{ sample_rate_to_capacity(334) }>::new(cfg, vec![0.1 * b, 0.9 * b, 1.0], true, false, 2).expect("calibration"), 200_000, &mut rep, "ribbon value machine at 334 Hz");
     }
     rep.nontrivial = rep.counters.get("values_checked_with_mixed_contributors").copied().unwrap_or(0);
     rep.require_nonzero("values_checked_with_mixed_contributors");
